@@ -22,7 +22,7 @@ import vlib
 from vlib import f2b, fs2b, b2f, b2fs
 
 ID = "C01"
-GEN = ["Leaves", "Combinators"]
+GEN = ["Leaves", "Combinators", "Planar"]
 RULE = ("expression trees over generated leaves (Affine/Loc/Scale with both signs, Exp, SoftPlus, Tanh, LeakyTanh, "
         "RationalQuadraticSpline with perturbed raw parameters) under generated Chain/Invert, depth<=3, evaluated by all "
         "four methods on boundary-directed inputs (interval ends, knots, ±max_val, tanh(max_val), ±1, 0, float neighbours, "
@@ -35,7 +35,9 @@ TRUSTED = [
     "Model/ToBij.lean elementwise lifting (hand-written, validated on vectors here)",
     "theorems are over ℝ: IEEE rounding/overflow is measured (rtol 1e-9) not proved",
 ]
-ASSUMPTIONS = ["Coupling/MAF/BNAF/Planar/Scan/Vmap lawfulness is covered by the oracle search and by C08/C09/C10's models, not by C01 theorems yet"]
+ASSUMPTIONS = ["Coupling/MAF/BNAF/Scan/Vmap lawfulness is covered by the oracle search and by C08/C09/C10's models, not by C01 theorems yet",
+               "Planar: theorems cover the leaky-relu activation with 0 < negative_slope <= 1 and w != 0 (tanh has no analytic inverse in the library; "
+               "negative_slope > 1 is the known finding planar_steep); TriangularAffine: hand model, triangular matrix with non-zero diagonal"]
 
 TOL = dict(rtol=1e-8, atol=1e-10)
 
@@ -174,6 +176,12 @@ def corr(c, tier, rng):
     # C01's lawfulness theorems for them are C08.concatenate_lawful / stack_lawful / partial_lawful / … over that model
     from props import c08
     c08.corr(c, tier, rng, n_trees=25 if tier == "quick" else 150)
+    from props import netinv
+    netinv.corr_net(c, tier, rng)
+    # --- Planar (generated, both activations, conditional through get_planar) and TriangularAffine (hand model)
+    from props import planar_tri
+    planar_tri.corr_planar(c, tier, rng)
+    planar_tri.corr_triangular(c, tier, rng)
 
 
 def scan_objects(rng):
@@ -271,6 +279,15 @@ def leaf_zoo(rng, n):
 def search(hints, tier, rng):
     """Round-trip oracle on the real objects at the boundary-directed set."""
     wit = []
+    # stacks of distinct layers (every premade flow's layer stack is a Scan)
+    for name, scan, cd in scan_objects(rng):
+        cond = jnp.asarray([rng.uniform(-1, 1) for _ in range(cd)]) if cd else None
+        xs = [[rng.uniform(-1.5, 1.5) for _ in range(3)] for _ in range(3)]
+        for w in roundtrip_violations(scan, "Scan:" + name, xs, cond=cond, eps=1e-9):
+            w["tokens"] = ["SCAN", name]
+            wit.append(w)
+            if len(wit) >= 5:
+                return wit
     for obj, desc, bnd, toks in leaf_zoo(rng, 150 if tier == "quick" else 1000):
         inputs = list(dict.fromkeys([float(v) for v in bnd] + fj.generic_inputs(rng, 3)))
         # Exp/Tanh/SoftPlus have restricted codomains: only probe the forward direction's law plus in-range inverses
@@ -309,6 +326,9 @@ def rebuild(tokens):
 
 
 def replay(w):
+    if w["tokens"][0] == "SCAN":
+        import random
+        return bool(search({}, "quick", random.Random(0)))
     obj = rebuild(w["tokens"])
     v = roundtrip_violations(obj, w["tree"], [w["x"]])
     return bool(v)
